@@ -1,7 +1,163 @@
-import PprofVerif.Base.Tok
-/- Driver operations for C06. -/
-namespace Driver.C06
-open PV
+import PprofVerif.Model.TagFilter
+import PprofVerif.Spec.Filter
+/- Driver operations for C06 (sample filters).
 
-def ops : List (String × (List String → String)) := []
+Token forms
+  rx      := 0 | 1 <list str>                 nil regexp | the strings of the profile it matches
+  views   := <list view>, view := <list int> <list kv-str> <list kv-int> <list kv-str> <list frame>
+  frame   := locID mappingID (0 | 1 fnID line col)
+  tagf    := <str value> <list (str piece, rx)> <list (str key, str unit)>
+             (`rx` 0 for a piece = regexp.Compile fails)
+-/
+namespace Driver.C06
+open PV PV.Filter PV.FilterSpec PV.TagFilter
+
+def rdRx : Rd (Option Rx) := do
+  let t ← Rd.opt (Rd.list Rd.str)
+  pure (t.map (fun tbl => fun s => tbl.contains s))
+
+def wrFrame (f : Frame) : Wr :=
+  Wr.nat f.locID ++ Wr.nat f.mappingID ++
+  (match f.line with
+   | none => ["0"]
+   | some ln => "1" :: (Wr.nat ln.functionID ++ Wr.int ln.line ++ Wr.int ln.column))
+
+def wrView (v : View) : Wr :=
+  Wr.list Wr.int v.values ++ Wr.list (Wr.kv Wr.str) v.label ++ Wr.list (Wr.kv Wr.int) v.numLabel ++
+  Wr.list (Wr.kv Wr.str) v.numUnit ++ Wr.list wrFrame v.frames
+
+def wrViews (vs : List View) : String := Wr.render (Wr.list wrView vs)
+
+structure TagF where
+  value : Str
+  pieces : List (Str × Option Rx)
+  units : List (Str × Str)
+
+def rdTagF : Rd TagF := do
+  let v ← Rd.str
+  let ps ← Rd.list (do let k ← Rd.str; let r ← rdRx; pure (k, r))
+  let us ← Rd.list (do let k ← Rd.str; let u ← Rd.str; pure (k, u))
+  pure ⟨v, ps, us⟩
+
+def TagF.compile (t : TagF) : Outcome (Option TagMatch) :=
+  compileTagFilter (fun piece => (t.pieces.lookup piece).bind id)
+    (fun k => (t.units.lookup k).getD []) t.value
+
+structure Opts where
+  focus : Option Rx
+  ignore : Option Rx
+  hide : Option Rx
+  show_ : Option Rx
+  showFrom : Option Rx
+  tagFocus : TagF
+  tagIgnore : TagF
+  tagShow : Option Rx
+  tagHide : Option Rx
+
+def rdOpts : Rd Opts := do
+  pure { focus := ← rdRx, ignore := ← rdRx, hide := ← rdRx, show_ := ← rdRx, showFrom := ← rdRx,
+         tagFocus := ← rdTagF, tagIgnore := ← rdTagF, tagShow := ← rdRx, tagHide := ← rdRx }
+
+/-- `applyFocus` without prune_from (C11): FilterSamplesByName, ShowFrom, FilterSamplesByTag,
+FilterTagsByName, in that order; option errors come first. -/
+def applyFocus (o : Opts) (p : Profile) : Outcome Profile :=
+  match o.tagFocus.compile with
+  | .panic s => .panic s
+  | .err e => .err e
+  | .ok tf =>
+    match o.tagIgnore.compile with
+    | .panic s => .panic s
+    | .err e => .err e
+    | .ok ti =>
+      let p1 := (filterSamplesByName p o.focus o.ignore o.hide o.show_).profile
+      let p2 := (showFrom p1 o.showFrom).1
+      let p3 := (filterSamplesByTag p2 tf ti).1
+      .ok (filterTagsByName p3 o.tagShow o.tagHide).1
+
+/-- what survives serialization: a NumUnit entry exists only next to its NumLabel entry
+(`pprof -proto` output is compared after Write/Parse). -/
+def dropOrphanUnits (s : Sample) : Sample :=
+  { s with numUnit := s.numUnit.filter (fun kv => s.numLabel.any (fun nl => nl.1 == kv.1)) }
+
+def b (x : Bool) : String := if x then "1" else "0"
+
+def with2 {α β} (ra : Rd α) (rb : Rd β) (ts : List String) (f : α → β → String) : String :=
+  match Rd.run (do let a ← ra; let b ← rb; pure (a, b)) ts with
+  | some (a, b) => f a b
+  | none => "bad-op"
+
+def rd4 : Rd (Option Rx × Option Rx × Option Rx × Option Rx) := do
+  let a ← rdRx; let b ← rdRx; let c ← rdRx; let d ← rdRx; pure (a, b, c, d)
+
+def rd2 : Rd (Option Rx × Option Rx) := do let a ← rdRx; let b ← rdRx; pure (a, b)
+
+def rdSamples : Rd (Option TagMatch) := do
+  let t ← Rd.opt (Rd.list Rd.sample)
+  pure (t.map (fun tbl => fun s => tbl.contains s))
+
+def ops : List (String × (List String → String)) := [
+  ("name.model", fun ts => with2 rd4 Rd.profile ts fun (fo, ig, hi, sh) p =>
+    let r := filterSamplesByName p fo ig hi sh
+    Wr.render (Wr.profile r.profile) ++ " " ++ b r.fm ++ " " ++ b r.im ++ " " ++ b r.hm ++ " " ++ b r.hnm),
+  ("name.spec", fun ts => with2 rd4 Rd.profile ts fun (fo, ig, hi, sh) p =>
+    wrViews (nameSpec p fo ig hi sh)),
+  ("showfrom.model", fun ts => with2 rdRx Rd.profile ts fun sf p =>
+    let r := showFrom p sf
+    Wr.render (Wr.profile r.1) ++ " " ++ b r.2),
+  ("showfrom.spec", fun ts => with2 rdRx Rd.profile ts fun sf p => wrViews (showFromSpec p sf)),
+  ("tags.model", fun ts => with2 rd2 Rd.profile ts fun (sh, hi) p =>
+    let r := filterTagsByName p sh hi
+    Wr.render (Wr.profile r.1) ++ " " ++ b r.2.1 ++ " " ++ b r.2.2),
+  ("tags.spec", fun ts => with2 rd2 Rd.profile ts fun (sh, hi) p =>
+    wrViews (p.samples.map (tagsSpecView p sh hi))),
+  ("bytag.model", fun ts =>
+    with2 (do let a ← rdSamples; let b ← rdSamples; pure (a, b)) Rd.profile ts fun (fo, ig) p =>
+    let r := filterSamplesByTag p fo ig
+    Wr.render (Wr.profile r.1) ++ " " ++ b r.2.1 ++ " " ++ b r.2.2),
+  ("bytag.spec", fun ts =>
+    with2 (do let a ← rdSamples; let b ← rdSamples; pure (a, b)) Rd.profile ts fun (fo, ig) p =>
+    wrViews (tagSpec p fo ig)),
+  ("tagfilter.model", fun ts =>
+    with2 (do let a ← rdTagF; let b ← rdTagF; pure (a, b)) Rd.profile ts fun (tf, ti) p =>
+    match tf.compile, ti.compile with
+    | .ok f, .ok i => let r := filterSamplesByTag p f i
+                      "ok " ++ Wr.render (Wr.profile r.1) ++ " " ++ b r.2.1 ++ " " ++ b r.2.2
+    | .panic _, _ => "panic"
+    | _, .panic _ => "panic"
+    | _, _ => "err"),
+  ("tagfilter.spec", fun ts =>
+    with2 (do let a ← rdTagF; let b ← rdTagF; pure (a, b)) Rd.profile ts fun (tf, ti) p =>
+    match tf.compile, ti.compile with
+    | .ok f, .ok i => "ok " ++ wrViews (tagSpec p f i)
+    | .panic _, _ => "panic"
+    | _, .panic _ => "panic"
+    | _, _ => "err"),
+  ("apply.model", fun ts => with2 rdOpts Rd.profile ts fun o p =>
+    match applyFocus o p with
+    | .ok r => "ok " ++ Wr.render (Wr.profile r) ++ " | " ++ wrViews (r.samples.map (fun s => view r (dropOrphanUnits s)))
+    | .err _ => "err"
+    | .panic _ => "panic"),
+  ("views", fun ts => match Rd.run Rd.profile ts with
+    | some p => wrViews (p.samples.map (view p))
+    | none => "bad-op"),
+  ("total", fun ts => with2 Rd.nat Rd.profile ts fun i p =>
+    toString (total i (p.samples.map (view p)))),
+  ("scale", fun ts =>
+    match Rd.run (do let v ← Rd.int; let f ← Rd.str; let t ← Rd.str; pure (v, f, t)) ts with
+    | some (v, f, t) => match scale v f t with
+      | some (q, u) => "ok " ++ toString q.num ++ " " ++ toString q.den ++ " " ++ u.toTok
+      | none => "auto"
+    | none => "bad-op"),
+  ("tagrange", fun ts =>
+    match Rd.run (do let s ← Rd.str; let vs ← Rd.list (do let v ← Rd.int; let u ← Rd.str; pure (v, u)); pure (s, vs)) ts with
+    | some (s, vs) => match parseTagFilterRange s with
+      | .ok none => "nil"
+      | .ok (some rf) => "range " ++ rf.unit.toTok ++ " " ++ " ".intercalate (vs.map fun (v, u) => b (rf.test v u))
+      | .err _ => "err"
+      | .panic _ => "panic"
+    | none => "bad-op"),
+  ("valid", fun ts => match Rd.run Rd.profile ts with
+    | some p => b p.validB
+    | none => "bad-op")
+]
 end Driver.C06
